@@ -7,6 +7,10 @@
 //!   structured family (p <= 6, n <= 100, 2..4 classes, cyclic / separable / noisy layouts), each
 //!   under every feature map, every alpha and both label tables, fitted by the real
 //!   `LogisticRegression::fit` and judged by the harness's own gradient / objective / scores.
+//!   Round 2: the "saturated scores" family — two-class lattice multisets (n = 6), structured sets
+//!   (n = 12, 25) and lopsided sets (n = 60, 100: 1..3 samples of one class) under scale-100 maps
+//!   with offsets 0 / +-300 and alpha in {1e-2, 1, 10}, where trial points and iterates of the
+//!   optimiser have |linear score| > 40 (witnessed by `saturated_*` counters with floors).
 //! * `quad.rs`: the crate-private `LBFGS` + `Backtracking` (verif-hooks re-export) on every member
 //!   of the SPD quadratic families of dimension 1..12 from every lattice start.
 //!
